@@ -171,6 +171,8 @@ type Cluster struct {
 	RPCCalls []RPCRecord
 	// gossip log: every payload handed out, in order
 	GossipSent int64
+	// gossip withheld from a node (HoldGossipFor), in arrival order
+	held map[uint64][][]byte
 }
 
 type RPCRecord struct {
@@ -408,7 +410,15 @@ func (c *Cluster) PumpOnce() int {
 		for _, b := range bs {
 			for _, m := range nodes {
 				if m != n {
-					m.State.Distributor().NotifyMsg(b)
+					c.mu.Lock()
+					_, holding := c.held[m.ID]
+					if holding {
+						c.held[m.ID] = append(c.held[m.ID], b)
+					}
+					c.mu.Unlock()
+					if !holding {
+						m.State.Distributor().NotifyMsg(b)
+					}
 				}
 			}
 			total++
@@ -416,6 +426,34 @@ func (c *Cluster) PumpOnce() int {
 	}
 	atomic.AddInt64(&c.GossipSent, int64(total))
 	return total
+}
+
+// HoldGossipFor makes the pump keep (not deliver) everything destined to node id.
+func (c *Cluster) HoldGossipFor(id uint64) {
+	c.mu.Lock()
+	if c.held == nil {
+		c.held = map[uint64][][]byte{}
+	}
+	if _, ok := c.held[id]; !ok {
+		c.held[id] = [][]byte{}
+	}
+	c.mu.Unlock()
+}
+
+// ReleaseGossipReversed delivers what was withheld from node id, newest first.
+func (c *Cluster) ReleaseGossipReversed(id uint64) int {
+	c.mu.Lock()
+	bs := c.held[id]
+	delete(c.held, id)
+	n := c.Nodes[id]
+	c.mu.Unlock()
+	if n == nil {
+		return 0
+	}
+	for i := len(bs) - 1; i >= 0; i-- {
+		n.State.Distributor().NotifyMsg(bs[i])
+	}
+	return len(bs)
 }
 
 // Quiesce pumps until every queue is empty (the gossip barrier).
